@@ -325,3 +325,49 @@ for _k in (-1, 0, 1, 2, 3, 4):
              modifies=['self.coeffs'], inline={'compute_coeffs', 'abs_smooth_1d'}, native=native_ak, sampler=sample_ak(_k, False),
              name=AK + '::Interp1DAkima.interpolate[5-point axis, bracket %d]' % _k,
              canaries=([('quadratic coefficient misses the factor h', ('c = (3 * m3 - 2 * b - bp1) * h', 'c = (3 * m3 - 2 * b - bp1)'), 'post', AK + '::Interp1DAkima.compute_coeffs')] if _k == 1 else []))
+
+
+# ---- InterpAlgorithmFixed._bracket_dim: hunt (down, then up, with doubling increments) + bisection -------------------
+# For every strictly increasing grid, every x and every cached start index: flag -1 exactly below the grid, +1 exactly
+# above it, and otherwise an index of a cell that contains x (closed on both sides).  Three inductive loop invariants.
+IA = 'openmdao/components/interp_util/interp_algorithm.py'
+LI0 = 'max(old(last_index), 0)'
+LOWER_OK = '(x > grid[last_index] or (last_index == 0 and x >= grid[0]))'
+INC = 'all(all(implies(a < b, grid[a] < grid[b]) for b in range(ng)) for a in range(ng))'
+
+
+def native_bracket(vals, np, om):
+    from pyvc.native_helpers import A, Fl
+    from openmdao.components.interp_util.interp_algorithm import InterpAlgorithmFixed
+    g = A(vals['grid'])
+    obj = InterpAlgorithmFixed.__new__(InterpAlgorithmFixed)
+    return dict(self=obj, grid=g, x=Fl(vals['x']), last_index=int(vals['last_index'])), dict(ng=len(g))
+
+
+def sample_bracket(rng):
+    ng = rng.choice([2, 3, 4, 6, 9])
+    g, xs = _inc_grid(rng, ng) if ng <= 9 else (None, None)
+    x = rng.choice([xs[0], xs[-1], xs[0] - 1, xs[-1] + 3, rng.choice(xs), rng.choice(xs) + 1, (xs[0] + xs[-1]) // 2])
+    return {'self': {'__obj__': 'InterpAlgorithmFixed', 'id': 0, 'attrs': {}}, 'grid': g, 'x': {'__frac__': [x, 8]}, 'last_index': rng.randrange(-1, ng)}
+
+
+contract(IA + '::InterpAlgorithmFixed._bracket_dim', ['C15'],
+         dict(self=Obj('InterpAlgorithmFixed'), grid=Arr('ng'), x=Real(), last_index=Int()),
+         requires=['ng >= 2', INC, 'last_index <= ng - 1'],
+         ensures=['iff(result[1] == -1, x < grid[0])', 'iff(result[1] == 1, x > grid[ng - 1])',
+                  'result[1] == -1 or result[1] == 0 or result[1] == 1',
+                  'implies(result[1] == -1, result[0] == -1)', 'implies(result[1] == 1, result[0] == ng - 1)',
+                  # inside the grid: the index of a cell that contains x
+                  'implies(result[1] == 0, 0 <= result[0] and result[0] <= ng - 2 and grid[result[0]] <= x and x <= grid[result[0] + 1])'],
+         modifies=[], returns=TupleT(Int(), Int()),
+         invariants={
+             'loop0': ['0 <= last_index and last_index <= ng - 1', 'inc >= 1', 'last_index < high and high <= ng', 'highbound == ng - 1',
+                       'high == %s + 1 or (high <= ng - 1 and x <= grid[high])' % LI0],
+             'loop1': ['0 <= last_index and last_index <= high and high <= highbound', 'highbound == ng - 1', 'inc >= 1', LOWER_OK,
+                       'last_index <= highbound - 1 or x > grid[highbound]'],
+             'loop2': ['0 <= last_index and last_index <= high and high <= highbound', 'highbound == ng - 1', 'x >= grid[last_index]', 'x <= grid[high]',
+                       'last_index <= highbound - 1']},
+         native=native_bracket, sampler=sample_bracket, name=IA + '::InterpAlgorithmFixed._bracket_dim',
+         defs={'timeout_ms': 30000},
+         canaries=[('cached index clamped from above instead of from below (seed S-C15-6)', ('last_index = max(last_index, 0)', 'last_index = min(last_index, len(grid) - 2)'), 'bounds'),
+                   ('bisection keeps the wrong half', ('if x < grid[low]:\n                high = low\n            else:\n                last_index = low', 'if x < grid[low]:\n                last_index = low\n            else:\n                high = low'), 'inv-step')])
